@@ -259,6 +259,8 @@ void harness(void) {
 }
 """ % (n, c_ge)
     out.append(Job('fault/BiList.GetElement.bounded', props, src, 'harness', kind='bounded', unwind=4 * n + 2, funcs=[b_ge], expect=[r'bounded'], meta={'fn': 'BiList::GetElement', 'bound': n}, timeout=600))
+    if getattr(ctx, 'prop', None) == 'C18':
+        out = [j for j in out if j.name.startswith('fault/Scheduler.')]      # virtual time: what 'at or after the deadline' is measured in
     return out
 
 
